@@ -62,7 +62,7 @@ func runC13(c *eng.Ctx, tier string) {
 			continue // pre-publication: handled below
 		}
 		n1++
-		hit, path := eng.Search(a.Fn, a.In, nil, isFlush, func(x ssa.Instruction) bool {
+		hit, path := eng.SearchX(a.Fn, a.In, nil, isFlush, func(x ssa.Instruction) bool {
 			if eng.IsReturn(x) {
 				return true
 			}
@@ -394,7 +394,15 @@ func c13Wire(c *eng.Ctx) {
 		return
 	}
 	var input types.Type
-	eng.Instrs(nfc, func(in ssa.Instruction) {
+	// decoding and filtering may live in a helper of the constructor
+	eng.InstrsDeep(nfc, func(g *ssa.Function, in ssa.Instruction) {
+		if mu, ok := in.(*ssa.MapUpdate); ok {
+			if mt, isMap := mu.Map.Type().Underlying().(*types.Map); isMap && eng.IsNamed(mt.Elem(), "types/api", "SecretValue") {
+				nfc = g
+			}
+		}
+	})
+	eng.InstrsDeep(nfc, func(_ *ssa.Function, in ssa.Instruction) {
 		if call, ok := in.(*ssa.Call); ok && eng.CalleeIs(&call.Call, "encoding/json", "Unmarshal") {
 			a := call.Call.Args[1]
 			if mi, isMI := a.(*ssa.MakeInterface); isMI {
